@@ -206,6 +206,42 @@ func TestVerifC40Bounded(t *testing.T) {
 		}
 	}
 	gen(nil)
+	// stacked histories: one interval inserted r = 1..3 times (its entries then share value
+	// slices with spare capacity), followed by every sequence of up to 3 of its sub-intervals -
+	// the shape in which pieces of an earlier split are appended to again
+	stackDom, stackTail := 4, 3
+	if thorough {
+		stackDom = 5
+	}
+	for a := 0; a < stackDom; a++ {
+		for b := a; b < stackDom; b++ {
+			var subs []c40iv
+			for c := a; c <= b; c++ {
+				for d := c; d <= b; d++ {
+					subs = append(subs, c40iv{c, d})
+				}
+			}
+			for r := 1; r <= 3; r++ {
+				base := make([]c40iv, r)
+				for i := range base {
+					base[i] = c40iv{a, b}
+				}
+				var tails func(seq []c40iv, depth int)
+				tails = func(seq []c40iv, depth int) {
+					if depth > 0 {
+						run(seq, 0, stackDom-1)
+					}
+					if depth == stackTail {
+						return
+					}
+					for _, iv := range subs {
+						tails(append(slices.Clone(seq), iv), depth+1)
+					}
+				}
+				tails(base, 0)
+			}
+		}
+	}
 	exh := evals
 	// random longer sequences over a wider domain
 	rnd := rand.New(rand.NewSource(40))
@@ -230,5 +266,5 @@ func TestVerifC40Bounded(t *testing.T) {
 	for len(samples) < 3 {
 		samples = append(samples, "")
 	}
-	fmt.Printf("BOUNDED: {\"evaluations\":%d,\"distinct\":%d,\"rule\":\"every insertion sequence of length <=%d of intervals [a,b] with 0<=a<=b<%d (%d exhaustive), plus %d seeded random sequences of length 4..12 over widths 8..19: after each insertion Entries() sorted and pairwise disjoint, Get(p).Value == indices of the inserted intervals containing p in insertion order for every p in the domain +-1, Insert's result == disjoint from all earlier intervals; at the end Nesting.Sets() partitions the inserted intervals and any two in one set are disjoint or one is a strict subset of the other; distinct_nontrivial counts the distinct sequences in which at least two intervals overlap\",\"exhaustive\":true,\"bound\":\"len<=%d, endpoints<%d; random part is sampled\",\"samples\":[%q,%q,%q]}\n", evals, distinct, maxLen, dom, exh, nr, maxLen, dom, samples[0], samples[1], samples[2])
+	fmt.Printf("BOUNDED: {\"evaluations\":%d,\"distinct\":%d,\"rule\":\"every insertion sequence of length <=%d of intervals [a,b] with 0<=a<=b<%d and every history 'one interval over 0..%d inserted 1..3 times, then up to 3 of its sub-intervals' (%d exhaustive in all), plus %d seeded random sequences of length 4..12 over widths 8..19: after each insertion Entries() sorted and pairwise disjoint, Get(p).Value == indices of the inserted intervals containing p in insertion order for every p in the domain +-1, Insert's result == disjoint from all earlier intervals; at the end Nesting.Sets() partitions the inserted intervals and any two in one set are disjoint or one is a strict subset of the other; distinct_nontrivial counts the distinct sequences in which at least two intervals overlap\",\"exhaustive\":true,\"bound\":\"len<=%d, endpoints<%d; random part is sampled\",\"samples\":[%q,%q,%q]}\n", evals, distinct, maxLen, dom, stackDom-1, exh, nr, maxLen, dom, samples[0], samples[1], samples[2])
 }
